@@ -27,6 +27,7 @@ func runC14(c *Ctx) {
 	c14Order(c)
 	c14Prompt(c)
 	c14IssueFromStored(c)
+	c14StoredFormKeys(c)
 }
 
 func c14R1(c *Ctx) {
